@@ -13,6 +13,7 @@ SENTENCES = [
     "FETCH 2 BODY.PEEK[1.2.TEXT]<0.100>", "FETCH 1 (RFC822 RFC822.HEADER RFC822.TEXT)", "UID FETCH 1:* FAST", "FETCH * ALL",
     "STORE 1 +FLAGS (\\Deleted)", "STORE 1:3 -FLAGS.SILENT (\\Seen kw)", "UID STORE 5 FLAGS (\\Answered)",
     "COPY 1:2 other", "UID COPY 4 other", "MOVE 1 other", "UID MOVE 2:* other", "UID EXPUNGE 1:3",
+    "FETCH 0 FLAGS", "UID FETCH 0:* FLAGS", "STORE 2,4:7,0 +FLAGS (\\Seen)", "SEARCH UID 0:5", "UID SEARCH NOT (OR 1:2 0) SEEN", "COPY 00 other",
     "SEARCH ALL", "SEARCH UNSEEN FLAGGED", "SEARCH NOT DELETED", "SEARCH OR SEEN (FLAGGED UNDRAFT)", "SEARCH BEFORE 1-Feb-2020 SINCE 31-Jan-2020",
     "SEARCH ON 31-Feb-2020", 'SEARCH SENTBEFORE "29-Feb-2019"', "SEARCH HEADER subject hello BODY x TEXT y", "SEARCH LARGER 10 SMALLER 20 UID 1:5 2:4",
     "SEARCH KEYWORD kw UNKEYWORD kw2 NEW OLD RECENT", "UID SEARCH CHARSET UTF-8 FROM a TO b CC c BCC d SUBJECT e", 'ID ("name" "x")', "ID NIL",
